@@ -236,6 +236,6 @@ def witnesses(R, tier):
 
 LEVEL_TEXT = ("Decides on all CFG paths: guards detach in Drop, attach functions have no error exit after a side effect, the capacity refusal reports "
               "the documented error, deadlines are reset before any callback, ids come only from collected descriptors / missed deadlines; plus compile-fail "
-              "witnesses for guard/attachment lifetimes. Dispatch exactness over histories with descriptor reuse is not decided.")
+              "witnesses for guard/attachment lifetimes. The epoll guard exists only after a successful registration. Dispatch exactness over histories with descriptor reuse is not decided.")
 LEVEL_NOTE = "Trusted: rustc MIR and borrow checker. Not decided: exactness over attach/detach/notify histories."
 TECHNIQUE = "static analysis: must-call in Drop, no-error-after-effect path rule, constant-mapping rule, dominance; compile-fail witnesses"
